@@ -100,6 +100,7 @@ class _AsyncDispatcher(object):
     """dispatcher double in the style of the default (asyncore) dispatcher: connect() returns at once, the outcome of the connection
     attempt and everything else is reported later by the event loop - here: when the history says so"""
     made = []
+    fail_next_connect = False
 
     def __init__(self, callbacks):
         self.cb = callbacks
@@ -109,6 +110,10 @@ class _AsyncDispatcher(object):
         _AsyncDispatcher.made.append(self)
 
     def connect(self, host):
+        if _AsyncDispatcher.fail_next_connect:
+            _AsyncDispatcher.fail_next_connect = False
+            self.state = "closed"
+            raise IOError("Name or service not known")
         self.state = "pending"
         self.cb.onConnecting()
 
@@ -165,7 +170,18 @@ def _run_net_async(case, out):
                 if live:
                     out.label("connect_request_while_" + ("up" if ups else "being_established"))
                 timeline.append("request")
-                stack.broadcastEvent(YowLayerEvent(YowNetworkLayer.EVENT_STATE_CONNECT))
+                raises = len(op) > 1 and op[1] == "raises" and not live
+                _AsyncDispatcher.fail_next_connect = raises
+                try:
+                    stack.broadcastEvent(YowLayerEvent(YowNetworkLayer.EVENT_STATE_CONNECT))
+                except IOError:
+                    out.label("connect_raises")
+                    timeline.append("attempt_over")
+                _AsyncDispatcher.fail_next_connect = False
+                if not live and not raises and not [d for d in _AsyncDispatcher.made if d.state in ("pending", "up")]:
+                    # nothing was up or being established: the request must have opened a connection
+                    out.fail("lifecycle", "net_async:connect_request_ignored_while_down", {"step": step, "history": case["ops"][:step + 1]})
+                    return out
             elif kind == "established" and pending:
                 d = pending[op[1] % len(pending)]
                 d.state = "up"
@@ -213,6 +229,9 @@ def _run_net_async(case, out):
             elif e == "request":
                 if state == "down":
                     state = "connecting"
+            elif e == "attempt_over":
+                if state == "connecting":
+                    state = "down"
             elif e == "disconnected":
                 # (a failed or abandoned attempt is announced as down too)
                 if state == "down":
@@ -834,7 +853,7 @@ def _enum_basic():
 
 def net_async_strategy():
     sel = st.integers(0, 2)
-    op = st.one_of(st.just(["connect_request"]), st.just(["connect_request"]), st.tuples(st.just("established"), sel).map(list),
+    op = st.one_of(st.just(["connect_request"]), st.just(["connect_request"]), st.just(["connect_request", "raises"]), st.tuples(st.just("established"), sel).map(list),
                    st.tuples(st.just("established"), sel).map(list), st.tuples(st.just("refused"), sel).map(list),
                    st.tuples(st.just("peer_close"), sel).map(list), st.just(["disconnect_request"]), st.tuples(st.just("data"), sel).map(list),
                    st.just(["send"]), st.just(["loop"]))
@@ -847,6 +866,8 @@ def _enum_net_async():
                                        ["connect_request"], ["established", 0], ["send"]]}
     yield {"sub": "net_async", "ops": [["connect_request"], ["refused", 0], ["loop"], ["connect_request"], ["connect_request"], ["established", 0],
                                        ["disconnect_request"], ["loop"], ["connect_request"], ["established", 0], ["data", 0]]}
+    yield {"sub": "net_async", "ops": [["connect_request", "raises"], ["connect_request"], ["established", 0], ["data", 0], ["peer_close", 0], ["loop"],
+                                       ["connect_request", "raises"], ["connect_request", "raises"], ["connect_request"], ["established", 0], ["send"]]}
     yield {"sub": "net_async", "ops": [["connect_request"], ["disconnect_request"], ["connect_request"], ["established", 0], ["established", 0],
                                        ["data", 0], ["data", 1]]}
 
